@@ -25,6 +25,10 @@ class Unsupported(BaseException):
     """The code left the supported subset; the function's obligations count as failed."""
 
 
+class Speculation(BaseException):
+    """A decision was needed while evaluating a branch speculatively (see vcrt.RT.ite)."""
+
+
 class Infeasible(BaseException):
     """An assumption turned out to be literally false: the path does not exist."""
 
@@ -84,6 +88,7 @@ class Ctx:
         self.writes: list[tuple[object, str]] = []
         self.counters: dict[str, int] = {}
         self.notes: list[str] = []
+        self.nofork = 0
         self.depth = 0  # >0 while evaluating a contract (decisions there are still sound)
         self.await_hook = None
         self.data: dict = {}
@@ -105,6 +110,8 @@ class Ctx:
         kn = self.known.get(cond.s)
         if kn is not None:
             return kn
+        if self.nofork:
+            raise Speculation()
         k = len(self.taken)
         if k >= self.MAX_DECISIONS:
             raise Unsupported(f"more than {self.MAX_DECISIONS} decisions on one path")
@@ -160,10 +167,14 @@ def B(x) -> T:
         return tm.mk_bool(bool(x))
     if hasattr(x, "__symtruth__"):
         return x.__symtruth__()
+    if isinstance(x, _enum.Flag):
+        return tm.mk_bool(bool(x))
     return tm.mk_bool(bool(x))
 
 
 def I(x) -> T:
+    if isinstance(x, SymOpt):
+        x = x.resolve()
     if isinstance(x, SymInt):
         return x.t
     if isinstance(x, SymBool):
@@ -181,6 +192,8 @@ def I(x) -> T:
 
 
 def S(x) -> T:
+    if isinstance(x, SymOpt):
+        x = x.resolve()
     if isinstance(x, (SymStr, SymBytes)):
         return x.t
     if isinstance(x, T):
@@ -432,6 +445,84 @@ class SymEnum(SymBase):
         return hash(self.concretize())
 
 
+class SymFlag(SymBase):
+    """A member of an enum.Flag class: one boolean per named flag."""
+
+    __slots__ = ("cls", "bits")
+
+    def __init__(self, cls, bits):
+        self.cls = cls
+        self.bits = bits  # dict single-bit member -> T(Bool)
+
+    @staticmethod
+    def members(cls):
+        return [m for m in cls if m.value & (m.value - 1) == 0 and m.value != 0]
+
+    @classmethod
+    def of(cls_, cls, v):
+        if isinstance(v, SymFlag):
+            return v
+        return SymFlag(cls, {m: tm.mk_bool(bool(v & m)) for m in SymFlag.members(cls)})
+
+    @classmethod
+    def fresh(cls_, cls, name):
+        c = cur()
+        return SymFlag(cls, {m: c.fresh(f"{name}.{m.name}", BOOL) for m in SymFlag.members(cls)})
+
+    def _zip(self, o, f):
+        o = SymFlag.of(self.cls, o)
+        return wrap_flag(self.cls, {m: f(self.bits[m], o.bits[m]) for m in self.bits})
+
+    def __or__(self, o):
+        return self._zip(o, tm.Or)
+
+    __ror__ = __or__
+
+    def __and__(self, o):
+        return self._zip(o, tm.And)
+
+    __rand__ = __and__
+
+    def __invert__(self):
+        return wrap_flag(self.cls, {m: tm.Not(t) for m, t in self.bits.items()})
+
+    def __symtruth__(self):
+        return tm.Or(*self.bits.values())
+
+    def __bool__(self):
+        return cur().fork(self.__symtruth__())
+
+    def __eq__(self, o):
+        if not isinstance(o, (SymFlag, self.cls)):
+            return False
+        o = SymFlag.of(self.cls, o)
+        return wrap_bool(tm.And(*[tm.Iff(self.bits[m], o.bits[m]) for m in self.bits]))
+
+    def __ne__(self, o):
+        r = self.__eq__(o)
+        return (not r) if isinstance(r, bool) else ~r
+
+    def __contains__(self, o):
+        o = SymFlag.of(self.cls, o)
+        return wrap_bool(tm.And(*[tm.Implies(o.bits[m], self.bits[m]) for m in self.bits]))
+
+    def has(self, member) -> T:
+        return self.bits[member]
+
+    def __repr__(self):
+        return f"SymFlag({ {m.name: t.s for m, t in self.bits.items()} })"
+
+
+def wrap_flag(cls, bits):
+    if all(t.is_lit for t in bits.values()):
+        v = cls(0)
+        for m, t in bits.items():
+            if tm.litval(t):
+                v |= m
+        return v
+    return SymFlag(cls, bits)
+
+
 def wrap_enum(cls, t: T):
     if t.is_lit:
         try:
@@ -669,6 +760,8 @@ class SymOpt(SymBase):
         return (not r) if isinstance(r, bool) else ~r
 
     def __getattr__(self, name):
+        if name.startswith("__") and name.endswith("__"):
+            raise AttributeError(name)
         v = self.resolve()
         return getattr(v, name)
 
@@ -677,6 +770,24 @@ def resolve(x):
     while isinstance(x, SymOpt):
         x = x.resolve()
     return x
+
+
+def sym_eq_val(a, b):
+    """Structural equality of two stored values (None / optional / record / scalar) as a term-valued bool."""
+    if isinstance(a, SymOpt) or isinstance(b, SymOpt) or a is None or b is None:
+        an = a.isnone if isinstance(a, SymOpt) else tm.mk_bool(a is None)
+        bn = b.isnone if isinstance(b, SymOpt) else tm.mk_bool(b is None)
+        ap = a.payload if isinstance(a, SymOpt) else a
+        bp = b.payload if isinstance(b, SymOpt) else b
+        inner = tm.TRUE if ap is None or bp is None else B(sym_eq_val(ap, bp))
+        return wrap_bool(tm.Or(tm.And(an, bn), tm.And(tm.Not(an), tm.Not(bn), inner)))
+    if isinstance(a, SymObj) and isinstance(b, SymObj):
+        ts = [B(sym_eq_val(a._fields[k], b._fields[k])) for k in a._fields if k in b._fields
+              and not isinstance(a._fields[k], SymObj) or (k in b._fields and isinstance(a._fields[k], SymObj)
+                                                           and a._fields[k]._frozen)]
+        return wrap_bool(tm.And(*ts))
+    r = a == b
+    return False if r is NotImplemented else r
 
 
 def sym_eq(a, b):
@@ -810,6 +921,31 @@ class SymSeq(SymBase):
         if c is not None:
             c.writes.append((self, "[]"))
 
+    def sort(self, *, key=None, reverse=False):
+        """list.sort: the elements are permuted in place (the order itself is not modelled)."""
+        c = cur()
+        perm = c.fresh(c.fresh_name("perm"), tm.arr(INT, INT))
+        inner = self.elem
+        n = self.length
+
+        def pelem(i):
+            j = tm.Select(perm, i, INT)
+            cur().pc.append(tm.And(tm.Le(tm.mk_int(0), j), tm.Lt(j, n)))
+            return inner(j)
+
+        self.elem = pelem
+        c.writes.append((self, "[]"))
+
+    def pop(self, index=-1):
+        if index != -1:
+            raise Unsupported("list.pop(i) on a symbolic sequence")
+        c = cur()
+        if c.fork(tm.Le(self.length, tm.mk_int(0))):
+            raise IndexError("pop from empty list")
+        self.length = tm.Sub(self.length, tm.mk_int(1))
+        c.writes.append((self, "[]"))
+        return self.elem(self.length)
+
     def __getitem__(self, k):
         if isinstance(k, slice):
             raise Unsupported("slice of symbolic sequence")
@@ -850,9 +986,15 @@ class SymMap(SymBase):
         self.name = name
         self.fresh_like = fresh_like
         self.value_invariant = None  # holds for every stored value (only for maps received as input)
+        self.point_facts = []  # definitional facts kt -> T, instantiated at every accessed key
+
+    def _touch(self, kt):
+        for f in self.point_facts:
+            cur().pc.append(f(kt))
 
     def _val(self, key):
         kt = self.kterm(key)
+        self._touch(kt)
         v = self.getter(self.state, kt)
         if self.value_invariant is not None:
             cur().pc.append(tm.Implies(tm.Select(self.has, kt, BOOL), B(self.value_invariant(v))))
@@ -863,10 +1005,57 @@ class SymMap(SymBase):
                    self.name, self.fresh_like)
         m.state = self.state
         m.value_invariant = self.value_invariant
+        m.point_facts = list(self.point_facts)
         return m
 
     def contains_t(self, key) -> T:
-        return tm.Select(self.has, self.kterm(key), BOOL)
+        kt = self.kterm(key)
+        self._touch(kt)
+        return tm.Select(self.has, kt, BOOL)
+
+    def clear(self):
+        self.has = tm.ConstArray(self.has.sort, tm.FALSE)
+        self.point_facts = []
+        self.value_invariant = None
+        c = CUR
+        if c is not None:
+            c.writes.append((self, "[]"))
+
+    def update(self, other=(), **kw):
+        """dict.update: with a symbolic map the result is a fresh map defined pointwise."""
+        if kw:
+            raise Unsupported("dict.update with keyword arguments")
+        other = resolve(other)
+        if isinstance(other, dict):
+            for k, v in other.items():
+                self[k] = v
+            return
+        if not isinstance(other, SymMap):
+            raise Unsupported("dict.update with a non-map argument")
+        c = cur()
+        old = self.copy_shallow()
+        oth = other.copy_shallow()
+        self.has = c.fresh(c.fresh_name(self.name + ".upd.has"), self.has.sort)
+        self.state = self.spec.val.arr_fresh(c.fresh_name(self.name + ".upd.val"), self.ksort)
+        self.value_invariant = None
+        new = self
+        spec = self.spec
+
+        def fact(kt, old=old, oth=oth, new_has=self.has, new_state=self.state):
+            in_o = tm.Select(oth.has, kt, BOOL)
+            in_s = tm.Select(old.has, kt, BOOL)
+            for f in old.point_facts + oth.point_facts:
+                cur().pc.append(f(kt))
+            nv = spec.val.arr_select(new_state, kt)
+            ov = spec.val.arr_select(oth.state, kt)
+            sv = spec.val.arr_select(old.state, kt)
+            return tm.And(tm.Iff(tm.Select(new_has, kt, BOOL), tm.Or(in_o, in_s)),
+                          tm.Implies(in_o, B(sym_eq_val(nv, ov))),
+                          tm.Implies(tm.And(tm.Not(in_o), in_s), B(sym_eq_val(nv, sv))))
+
+        self.point_facts = [fact]
+        c.writes.append((self, "[]"))
+        c.event("map.update", target=self, other=oth, before=old)
 
     def __contains__(self, key):
         return wrap_bool(self.contains_t(key))
@@ -934,9 +1123,13 @@ class SymSet(SymBase):
         self.kwrap = kwrap
         self.name = name
         self.elem_invariant = None
+        self.point_facts = []
 
     def contains_t(self, key) -> T:
-        return tm.Select(self.has, self.kterm(key), BOOL)
+        kt = self.kterm(key)
+        for f in self.point_facts:
+            cur().pc.append(f(kt))
+        return tm.Select(self.has, kt, BOOL)
 
     def __contains__(self, key):
         return wrap_bool(self.contains_t(key))
